@@ -444,6 +444,7 @@ func runCase(c Case) (res pbt.Result) {
 		return
 	}
 	defer in.Stop()
+	in.KeepRaw = true
 	add := func(d ...pbt.Disc) {
 		for _, x := range d {
 			if len(res.Discs) < maxDiscs {
@@ -563,27 +564,22 @@ func runCase(c Case) (res pbt.Result) {
 		if pending == 0 || broken {
 			return
 		}
-		var want func(int64) bool
-		if c.Mode == "direct" && last.kept && last.id > 0 && last.id%2 == 0 {
-			// the row's own delivery is the barrier
-			id := last.id
-			want = func(x int64) bool { return x == id }
-		} else {
-			n := 1
-			if c.Mode == "window" {
-				n = c.N
-			}
-			lo := sentinelID - int64(n)
-			hi := sentinelID
-			for i := 0; i < n; i++ {
-				sentinelID--
-				e := emitAsync(c.makeStreamRow(sentinelID, c.sentinelTuple()), "sentinel")
-				if !e.kept {
-					panic("harness: sentinel row is not kept by the model: " + sql)
-				}
-			}
-			want = func(x int64) bool { return x >= lo && x < hi }
+		// n sentinel rows (matching the permanent table row) follow the pending rows; the processor handles
+		// rows one at a time in emit order, so a result carrying one of them proves the pending rows were enriched.
+		// (Waiting for a pending row's own result instead would turn a wrongly dropped row into a time-out.)
+		n := 1
+		if c.Mode == "window" {
+			n = c.N
 		}
+		lo, hi := sentinelID-int64(n), sentinelID
+		for i := 0; i < n; i++ {
+			sentinelID--
+			e := emitAsync(c.makeStreamRow(sentinelID, c.sentinelTuple()), "sentinel")
+			if !e.kept {
+				panic("harness: sentinel row is not kept by the model: " + sql)
+			}
+		}
+		want := func(x int64) bool { return x >= lo && x < hi }
 		if !in.WaitFor(pbt.Wait(8*time.Second), func(ds []run.Delivery) bool { return hasID(ds, want) }) {
 			add(pbt.D("barrier-lost", "after emitting %s no result arrived within the deadline (sentinel/own delivery missing); deliveries so far: %d", last.desc(), len(in.Deliveries())))
 			broken = true
@@ -721,6 +717,14 @@ func runCase(c Case) (res pbt.Result) {
 	for _, h := range helds {
 		if !reflect.DeepEqual(h.ref, h.snap) {
 			add(pbt.D("returned-result-changed", "%s: result was %v when returned, is %v after later operations", h.e.desc(), h.snap, h.ref))
+		}
+	}
+
+	for _, d := range in.Deliveries() {
+		for i := range d.Rows {
+			if i < len(d.Raw) && !reflect.DeepEqual(d.Raw[i], d.Rows[i]) {
+				add(pbt.D("returned-result-changed", "delivered row was %v when handed to the sink, is %v after later operations", d.Rows[i], d.Raw[i]))
+			}
 		}
 	}
 
@@ -992,24 +996,38 @@ func (c Case) allTuples() [][]gen.Val {
 	return out
 }
 
-func normComp(v gen.Val) string {
+// encComp spells one key component the way the table index does ("<tag><value>"); only used to
+// recognise the separator-collision shape of a case, never by the oracle.
+func encComp(v gen.Val) string {
 	if v.IsNull() {
 		return "<nil>"
 	}
-	if isNum(v) {
-		if r := exact(v); r != nil {
-			return "n:" + r.RatString()
+	if narrowKinds[v.K] {
+		return v.K + ":" + strings.TrimPrefix(v.String(), v.K+":")
+	}
+	if f, ok := v.Num(); ok {
+		if f == 0 {
+			f = 0
 		}
+		return "n:" + fmtNum(f)
 	}
 	return "s:" + v.S
 }
 
-func naive(tu []gen.Val) string {
-	parts := make([]string, len(tu))
-	for i, v := range tu {
-		parts[i] = normComp(v)
+// sepCollision: the parts differ but their unit-separator join is the same text.
+func sepCollision(a, b []gen.Val) bool {
+	if len(a) != len(b) || len(a) < 2 {
+		return false
 	}
-	return strings.Join(parts, "\x1f")
+	pa, pb := make([]string, len(a)), make([]string, len(b))
+	same := true
+	for i := range a {
+		pa[i], pb[i] = encComp(a[i]), encComp(b[i])
+		if pa[i] != pb[i] {
+			same = false
+		}
+	}
+	return !same && strings.Join(pa, "\x1f") == strings.Join(pb, "\x1f")
 }
 
 func features(c Case) []string {
@@ -1033,7 +1051,7 @@ func features(c Case) []string {
 				continue
 			}
 			a, b := tus[i], tus[j]
-			if len(c.Keys) > 1 && i < j && naive(a) == naive(b) && !sameTyped(a, b) {
+			if i < j && sepCollision(a, b) {
 				sep = true
 			}
 			for p := range a {
@@ -1061,20 +1079,4 @@ func features(c Case) []string {
 		f = append(f, "key-above-2p53")
 	}
 	return f
-}
-
-// sameTyped: componentwise equal where NULL equals NULL (two spellings of the same tuple).
-func sameTyped(a, b []gen.Val) bool {
-	if len(a) != len(b) {
-		return false
-	}
-	for i := range a {
-		if a[i].IsNull() && b[i].IsNull() {
-			continue
-		}
-		if !keyEq(a[i], b[i]) {
-			return false
-		}
-	}
-	return true
 }
